@@ -30,6 +30,7 @@ import (
 	"github.com/lindb/common/pkg/ltoml"
 	"go.uber.org/atomic"
 
+	"github.com/lindb/lindb/internal/verifhook"
 	"github.com/lindb/lindb/kv/table"
 	"github.com/lindb/lindb/kv/version"
 	"github.com/lindb/lindb/pkg/lockers"
@@ -210,6 +211,7 @@ func (s *store) CreateFamily(familyName string, option FamilyOption) (family Fam
 		// return exist family
 		return family, nil
 	}
+	verifhook.Yield("kv.store.CreateFamily.beforeWriteLock")
 
 	familyPath := filepath.Join(s.path, familyName)
 
